@@ -307,7 +307,7 @@ def san(harness, prop, part, variant, quick, thorough):
 
 
 def san_parts(variant, scale=1.0):
-    t = [("pool", "C01", "prog", 120), ("pool", "C02", "forkjoin", 80), ("pool", "C03", "prog", 60), ("pool", "C04", "cancel", 200),
+    t = [("pool", "C01", "prog", 120), ("pool", "C02", "prog", 250), ("pool", "C02", "forkjoin", 80), ("pool", "C03", "prog", 60), ("pool", "C04", "cancel", 200),
          ("pool", "C05", "prog", 80), ("pool", "C06", "prog", 100), ("pool", "C47", "prog", 80), ("pool", "C08", "probe", 40),
          ("pool", "C46", "chain", 20),
          ("sync2", "C22", "rwlock", 400), ("sync2", "C23", "drwlock", 400), ("sync2", "C24", "async", 400), ("sync2", "C25", "respool", 300),
@@ -320,9 +320,22 @@ def san_parts(variant, scale=1.0):
          ("timed", "C26", "timed", 400),
          ("conc", "C33", "cvgrow", 800), ("conc", "C34", "mpmc", 800), ("conc", "C35", "spsc", 800), ("conc", "C36", "cld", 800),
          ("conc", "C37", "arena", 800), ("conc", "C41", "sba", 800), ("conc", "C42", "pool", 800)]
-    return [san(h, p, part, variant, max(10, int(q * scale)), max(10, int(q * scale)) * 40) for h, p, part, q in t]
+    return [san(h, p, part, variant, max(10, int(q * scale)), max(10, int(q * scale)) * 8) for h, p, part, q in t]
 
 
+# UBSan alone, with glibc's allocator: ASan's allocator over-aligns every block and thereby hides misaligned construction
+# of over-aligned types (C++14: std::allocator / plain new do not honour alignas(64))
+UBSAN_ONLY = [san(h, p, part, "ubsan", q, q * 8) for h, p, part, q in
+              [("pool", "C01", "prog", 150), ("pool", "C02", "forkjoin", 100), ("pool", "C05", "prog", 100), ("pool", "C04", "cancel", 200),
+               ("future", "C18", "fut", 400), ("future", "C19", "then", 400), ("pipe", "C29", "fault", 300), ("graph", "C31", "native", 600),
+               ("timed", "C26", "timed", 300), ("sync2", "C25", "respool", 300), ("conc", "C33", "cvgrow", 1000), ("conc", "C37", "arena", 1000),
+               ("conc", "C41", "sba", 1000), ("conc", "C42", "pool", 1000)]]
+# Under the schedule explorer the lifetime ledgers of these harnesses are leak oracles that do not depend on the
+# machine's natural schedule (every payload / functor / result object constructed must be destroyed once the structure
+# is gone), and the explorer's heap poisoning reports writes to freed blocks.
+E1_LIFETIME = [dict(harness=h, variant="dsched", part=part, prop=p, quick=q, thorough=q * 30) for h, p, part, q in
+               [("pipe", "C29", "fault", 1500), ("timed", "C26", "timed", 1200), ("future", "C18", "fut", 2000), ("conc", "C34", "mpmc", 1500),
+                ("conc", "C35", "spsc", 1500), ("pool", "C05", "prog", 1200)]]
 SAN_PROGRAMS = ("The generated programs of the harnesses behind C01-C06, C08, C12-C16, C18-C20, C22-C31, C33-C37, C41, C42, C45-C48 "
                 "(thread pool producers / task sets / bulk and forced-queue submission / resize / cancellation / throwing tasks / nested waits, "
                 "parallel_for / for_each / parallel_invoke shapes, futures and continuations on five schedulers, pipelines incl. throwing stages, "
@@ -338,11 +351,11 @@ CHECKS.update({
                 assumptions=["ThreadSanitizer (clang 14) is a sound happens-before detector for the operations it models; reports inside the harness itself were removed by construction (relaxed-atomic bookkeeping)",
                              "covers the paths the generated programs execute under the machine's natural schedules; not an enumeration of interleavings"]),
     "C11": dict(title="Memory safe and leak free, including error paths", level="exploration",
-                technique="program-level PBT: the same generated programs (incl. throwing tasks, cancellation, pipelines unwinding after an exception, detach / destroy of timed tasks, pool teardown) run natively under AddressSanitizer + UndefinedBehaviourSanitizer with a LeakSanitizer check after every case; plus the rapidcheck container-history models (ConcurrentVector, SmallVector, OnceFunction, OpResult, CpuSet parsers) under ASan/UBSan; inside the schedule explorer every E1 check additionally poisons freed blocks and reports writes to them",
-                text=SAN_PROGRAMS + "compiled with -fsanitize=address,undefined (-fno-sanitize-recover), LeakSanitizer run after each case: out-of-bounds, use-after-free, UB and leaked allocations are violations. Stateful container histories (insert / erase / grow / shrink / move / swap / clear over element types with lifetime tracking) run under the same sanitizers via rapidcheck.",
+                technique="program-level PBT: the same generated programs (incl. throwing tasks, cancellation, pipelines unwinding after an exception, detach / destroy of timed tasks, pool teardown) run natively under AddressSanitizer + UndefinedBehaviourSanitizer with a LeakSanitizer check after every case; plus the rapidcheck container-history models (ConcurrentVector, SmallVector, OnceFunction, OpResult, CpuSet parsers) under ASan/UBSan; the error-path harnesses with lifetime ledgers (pipeline faults, TimedTask teardown, Future results, ring elements, throwing tasks) also run under the dsched schedule explorer, where the ledger is the leak oracle and freed blocks are poisoned and scanned for later writes",
+                text=SAN_PROGRAMS + "compiled with -fsanitize=address,undefined (-fno-sanitize-recover), LeakSanitizer run after each case: out-of-bounds, use-after-free, UB and leaked allocations are violations; a subset again with -fsanitize=undefined alone on glibc malloc (ASan's allocator over-aligns and hides misaligned construction of cache-line-aligned types). Stateful container histories (insert / erase / grow / shrink / move / swap / clear over element types with lifetime tracking) run under the same sanitizers via rapidcheck.",
                 note="Exception, cancellation and shutdown paths are reached by construction (generators of C04, C05, C29, C26, C09-style teardown). Leak check = allocations of a case that are neither freed nor reachable when the case ends.",
                 design_ref="§4 C11",
-                parts=san_parts("asan", 1.5) + [dict(harness="cvec", variant="rcasan", part="model", prop="C32", quick=20000, thorough=400000),
+                parts=san_parts("asan", 1.5) + UBSAN_ONLY + E1_LIFETIME + [dict(harness="cvec", variant="rcasan", part="model", prop="C32", quick=20000, thorough=400000),
                                                  dict(harness="small", variant="rcasan", part="model", prop="C38", quick=20000, thorough=400000),
                                                  dict(harness="small", variant="rcasan", part="once", prop="C39"),
                                                  dict(harness="small", variant="rcasan", part="model", prop="C40", quick=20000, thorough=400000),
